@@ -3,7 +3,9 @@
 //! This crate provides the gas computation for the Cairo programs.
 
 use cairo_lang_eq_solver::Expr;
-use cairo_lang_sierra::extensions::circuit::{CircuitInfo, CircuitTypeConcrete, ConcreteCircuit};
+use cairo_lang_sierra::extensions::circuit::{
+    CircuitConcreteLibfunc, CircuitInfo, CircuitTypeConcrete, ConcreteCircuit,
+};
 use cairo_lang_sierra::extensions::core::{
     CoreConcreteLibfunc, CoreLibfunc, CoreType, CoreTypeConcrete,
 };
@@ -50,6 +52,8 @@ pub enum CostError {
     UnexpectedCycle,
     #[error("failed to enforce function cost")]
     EnforceWalletValueFailed(StatementIdx),
+    #[error("circuits are not supported for old gas solver")]
+    CircuitsNotSupported,
 }
 
 /// Helper to implement the `InvocationCostInfoProvider` for the equation generation.
@@ -197,6 +201,17 @@ pub fn calc_gas_postcost_info<ApChangeVarValue: Fn(StatementIdx) -> usize>(
     precost_gas_info: &GasInfo,
     ap_change_var_value: ApChangeVarValue,
 ) -> Result<GasInfo, CostError> {
+    // The cost of these libfuncs depends on the circuit info, which the equation generation
+    // does not provide.
+    for statement in &program.statements {
+        if let Statement::Invocation(invocation) = statement
+            && let Ok(CoreConcreteLibfunc::Circuit(
+                CircuitConcreteLibfunc::Eval(_) | CircuitConcreteLibfunc::InitCircuitData(_),
+            )) = program_info.registry.get_libfunc(&invocation.libfunc_id)
+        {
+            return Err(CostError::CircuitsNotSupported);
+        }
+    }
     let mut info = calc_gas_info_inner(
         program,
         |statement_future_cost, idx, libfunc_id| {
